@@ -208,6 +208,13 @@ def main(tier, seed):
             p = ["r%d" % r.randrange(4), "s"] + [r.choice(ops) for _ in range(r.choice([5, 20, 60, 200]))]
             ps.append(p)
         jobs.append((w_hist, (hexes, HM.POOL7, ps, "random")))
+    # one object, 66 000 validations in mode 6531 (a call counter that wraps, a context re-created now and then): contexts created and
+    # destroyed must balance at the end, outcomes must stay those of a fresh object
+    lp = ["r3", "s"]
+    for i in range(66000 if tier == "quick" else 140000):
+        lp.append("e%d" % (i % len(HM.POOL7)))
+    jobs.append((w_hist, ({"idnkit": hexes["idnkit"]}, HM.POOL7, [lp], "long-run")))
+    jobs.append((w_hist, ({"idn": hexes["idn"]}, HM.POOL7, [lp], "long-run")))
     # definedness (memcheck) for the foreign back ends on an uninstrumented build: eav_t lives in uninitialised heap memory
     r2 = random.Random(seed * 53)
     ops = HM.alphabet(mdl, len(HM.POOL7))
